@@ -1096,4 +1096,60 @@ theorem torn_listing_entry_is_track (cfg : Cfg) (s1 s2 : State) (c : Nat) (p : P
   rcases h : enqueue cfg s2 p .pin with ⟨a, b⟩
   cases b <;> simp
 
+/-! ### round 8c, direction 5: the last clause (`full_queue_reported`) over WHOLE histories, for every pin kind -/
+
+/-- `Track` of ANY pin — meta (never tracked), remote for this peer (synchronous unpin path), allocated here — satisfies `reported` on the
+    model's own frame, from every state. -/
+theorem full_queue_reported_track_any (cfg : Cfg) (n : Nat) (s : State) (p : PinSpec) :
+    reported n { act := .track p, ret := toRetCode (track cfg s p).2, infos := [], obs := observe (track cfg s p).1 } = true := by
+  cases hk : p.kind with
+  | here => exact full_queue_reported_track cfg n s p hk
+  | sharded => simp [reported, instrOf, hk, track, toRetCode]
+  | remote =>
+    simp only [reported, instrOf, hk, track, observe, statusOf]
+    generalize ({ s with shared := upd s.shared p.cid (some p), failed := if Kind.remote = Kind.here then upd s.failed p.cid false else s.failed } : State) = s1
+    unfold trackNew
+    cases h : s1.cur p.cid with
+    | none => simp [newOp, upd, toRetCode, opStatus]
+    | some i =>
+      by_cases hg : (s1.ops i).typ = .remote ∧ (s1.ops i).phase ≠ .error ∧ (s1.ops i).phase ≠ .done
+      · simp [hg, h, toRetCode, opStatus]
+      · simp [hg, newOp, cancelOp, upd, toRetCode, opStatus]
+
+/-- the frame of an instruction of a history, as the clause reads it (none for worker / daemon events) -/
+def instrFrame (cfg : Cfg) (s : State) : Ev → Option Frame
+  | .track p => some { act := .track p, ret := toRetCode (track cfg s p).2, infos := [], obs := observe (track cfg s p).1 }
+  | .untrack c => some { act := .untrack c, ret := toRetCode (untrack cfg s c).2, infos := [], obs := observe (untrack cfg s c).1 }
+  | .recover c => some { act := .recover c, ret := toRetCode (recover cfg s c).2, infos := [], obs := observe (recover cfg s c).1 }
+  | _ => none
+
+def instrFrames (cfg : Cfg) : State → List Ev → List Frame
+  | _, [] => []
+  | s, e :: es => (instrFrame cfg s e).toList ++ instrFrames cfg (step cfg s e) es
+
+theorem instrFrames_reported (cfg : Cfg) (n : Nat) (es : List Ev) : ∀ s, Reachable cfg s → (instrFrames cfg s es).all (reported n) = true := by
+  induction es with
+  | nil => intro s _; rfl
+  | cons e es ih =>
+    intro s hr
+    have hrest := ih (step cfg s e) (.step e hr)
+    simp only [instrFrames, List.all_append, hrest, Bool.and_true]
+    cases e <;> simp only [instrFrame, Option.toList, List.all_cons, List.all_nil, Bool.and_true]
+    · exact full_queue_reported_track_any cfg n s _
+    · exact full_queue_reported_untrack cfg n s _
+    · exact full_queue_reported_recover cfg n s _ hr
+
+/-- For EVERY history of instructions, worker steps, daemon effects / answers / errors and lost pins, from the initial state: EVERY instruction
+    of it satisfies the last clause (`full_queue_reported` of `Spec.clauses`, as the driver evaluates it) on the observation at its return —
+    nil ⇒ queued / in progress (or remote / not tracked), ErrFullQueue ⇒ an error status. (Composition of the per-instruction theorems; the
+    observation is the one at the instruction's return, before the workers move on.) -/
+theorem history_full_queue_reported (cfg : Cfg) (n : Nat) (es : List Ev) :
+    (instrFrames cfg init es).all (reported n) = true := instrFrames_reported cfg n es init .init
+
+example : ((instrFrames k06Cfg init [.track (k06Pin .direct), .track { cid := 0, kind := .here, mode := .recursive, tag := 2 }, .deqPin,
+    .untrack 0, .track (pinCid 0), .recover 0]).map (fun f => (f.ret, f.obs.status 0))) =
+    [(.nil, .pinQueued), (.nil, .pinQueued), (.nil, .unpinQueued), (.nil, .remote), (.nil, .remote)] := by decide
+example : ((instrFrames { cap := 0, workers := 1, ncids := 1 } init [.track (k06Pin .direct), .recover 0]).map (fun f => (f.ret, f.obs.status 0))) =
+    [(.full, .pinError), (.full, .pinError)] := by decide
+
 end CV.C05
